@@ -1,8 +1,8 @@
 package main
 
 import (
-	"github.com/mmcloughlin/avo/build"
 	"fmt"
+	"github.com/mmcloughlin/avo/build"
 	"go/build/constraint"
 	"reflect"
 	"strings"
@@ -112,6 +112,59 @@ func c14(c *Ctx) {
 		valid := cs.Validate() == nil
 		if valid {
 			nvalid++
+		}
+		// the constructor helpers (And, Any, Opt, Not and the To* conversions) must build exactly the value
+		// they describe: the same formula written with them evaluates and prints the same
+		{
+			var ccs []buildtags.ConstraintConvertable
+			for _, cn := range cs {
+				var ocs []buildtags.OptionConvertable
+				for _, op := range cn {
+					var ts []buildtags.Term
+					for _, t := range op {
+						if t.IsNegated() && rng.Bool() {
+							ts = append(ts, buildtags.Not(strings.TrimPrefix(string(t), "!")))
+						} else {
+							ts = append(ts, t)
+						}
+					}
+					if len(ts) == 1 && rng.Bool() {
+						ocs = append(ocs, ts[0]) // a Term is convertible to an Option
+					} else {
+						ocs = append(ocs, buildtags.Opt(ts...))
+					}
+				}
+				if len(ocs) == 1 && rng.Bool() {
+					ccs = append(ccs, ocs[0].ToOption()) // an Option is convertible to a Constraint
+				} else {
+					ccs = append(ccs, buildtags.Any(ocs...))
+				}
+			}
+			built := buildtags.And(ccs...)
+			same := len(built) == len(cs)
+			for i := 0; same && i < len(cs); i++ {
+				same = len(built[i]) == len(cs[i])
+				for k := 0; same && k < len(cs[i]); k++ {
+					same = len(built[i][k]) == len(cs[i][k])
+					for m := 0; same && m < len(cs[i][k]); m++ {
+						same = built[i][k][m] == cs[i][k][m]
+					}
+				}
+			}
+			if !same || built.ToConstraints().GoString() != cs.GoString() {
+				o.Plan.GoViolations = append(o.Plan.GoViolations, GoViolation{Key: "tags:helpers", Desc: fmt.Sprintf("And/Any/Opt/Not build %#v for the formula %#v", built, cs), Replay: map[string]any{"constraints": cs.GoString()}})
+			}
+			if len(cs) == 1 {
+				if got := cs[0].ToConstraints(); len(got) != 1 || got.GoString() != cs.GoString() {
+					o.Plan.GoViolations = append(o.Plan.GoViolations, GoViolation{Key: "tags:helpers", Desc: fmt.Sprintf("Constraint.ToConstraints gives %#v for %#v", got, cs[0]), Replay: map[string]any{"constraints": cs.GoString()}})
+				}
+				if len(cs[0]) == 1 && len(cs[0][0]) == 1 {
+					t := cs[0][0][0]
+					if t.ToConstraints().GoString() != cs.GoString() || t.ToConstraint().GoString() != cs[0].GoString() || len(t.ToOption()) != 1 || t.ToOption()[0] != t {
+						o.Plan.GoViolations = append(o.Plan.GoViolations, GoViolation{Key: "tags:helpers", Desc: fmt.Sprintf("Term conversions of %q differ from the term", string(t)), Replay: map[string]any{"term": string(t)}})
+					}
+				}
+			}
 		}
 		text := cs.GoString()
 		var evals []string
